@@ -65,7 +65,7 @@ def corpus():
 
 def run(ctx):
     rng, tier = ctx["rng"], ctx["tier"]
-    n = 150 if tier == "quick" else 3000
+    n = int((150 if tier == "quick" else 3000) * ctx.get("mult", 1))
     hashseeds = [0, 1] if tier == "quick" else [0, 1, 2, 3]
     if ctx.get("replay"):
         cases = [f["case"] for f in ctx["replay"]["failing"] if "case" in f]
